@@ -113,7 +113,7 @@ H0 == [before |-> {}, ret |-> {}, res |-> [a \in Acts |-> "-"], sawOpen |-> {}, 
        reads |-> <<>>, chain |-> [a \in Acts |-> <<>>], after |-> [a \in Acts |-> <<>>],
        supp |-> {}, sent |-> <<>>, fwd |-> [s \in Subs |-> <<>>], got |-> [s \in Subs |-> <<>>],
        registered |-> {}, redAfter |-> [r \in DOMAIN RedScript |-> {}], lateBad |-> {},
-       skippedAcc |-> 0, follow |-> {}]
+       skippedAcc |-> 0, follow |-> {}, effRet |-> 0, mwCalls |-> 0, implRej |-> 0]
 
 Chan0 == [c \in ChanIds |-> [q |-> <<>>, open |-> (c = "D"), alive |-> (c = "D"),
                               rx |-> FALSE, held |-> FALSE]]
@@ -303,7 +303,7 @@ MMwCheck(w, ph) ==           \* with FineReg: one park point before the middlewa
 MMwCall(w) ==
     LET i == L(w).i IN
     IF i > Len(w.mws) THEN Goto(w, "mw.end")
-    ELSE Park([w EXCEPT !.loc[w.t].calls = @ + 1], "mw.ret", "cb",
+    ELSE Park([w EXCEPT !.loc[w.t].calls = @ + 1, !.h.mwCalls = @ + 1], "mw.ret", "cb",
               Cb(w, L(w).ph, w.mws[i], MwArgState(w), L(w).a,
                  IF L(w).ph = "before_effect" THEN L(w).effs ELSE <<>>))
 
@@ -386,6 +386,7 @@ MRedRet(w) ==                \* store_impl.rs:335-351: thread the state, collect
                    !.loc[w.t].effs = IF sc.eff.k = "none" THEN @ ELSE Append(@, sc.eff),
                    !.loc[w.t].needD = (sc.op = "D"),
                    !.h.chain[a] = Append(@, r),
+                   !.h.effRet = IF sc.eff.k = "none" THEN @ ELSE @ + 1,
                    !.loc[w.t].i = @ + 1], "red.call")
 
 MRedEnd(w) ==                \* store_impl.rs:356
@@ -514,6 +515,7 @@ MIdle(w) ==
                                       !.h.accBeforeStop = IF w.h.stopBegun THEN @ ELSE @ \cup {o.a}],
                            "D", o.a, "disp")
             ELSE OpEnd([w1 EXCEPT !.m.errors = IF o.via \in {"impl", "store"} THEN @ + 1 ELSE @,
+                                  !.h.implRej = IF o.via \in {"impl", "store"} THEN @ + 1 ELSE @,
                                   !.h.ret = @ \cup {o.a}, !.h.res[o.a] = "Err"], "Err")
       [] o.op \in {"close", "stop", "drop_store"} ->
             MClose([w EXCEPT !.loc[t].got = FALSE,
